@@ -279,7 +279,16 @@ def make_file(rng, dg, roots, numbering, opts):
     F['ids'] = [vid[v] for v in by_id]
     F['permids'] = [permid[v] for v in by_id]
     if opts.get('aux'):
-        F['auxids'] = [vid[v] for v in by_id]
+        # auxiliary ids are free-form integers that the loader only counts: make them DIFFER from
+        # the ids (a permutation of them, or unrelated numbers)
+        ids_ = [vid[v] for v in by_id]
+        mode = rng.randrange(3)
+        if mode == 0:
+            F['auxids'] = ids_
+        elif mode == 1:
+            F['auxids'] = rng.sample(ids_, len(ids_))
+        else:
+            F['auxids'] = [rng.randrange(0, 50) for _ in ids_]
     rootids = [ref(r) for r in roots]
     F['nroots'] = len(rootids)
     F['rootids'] = rootids
